@@ -72,7 +72,7 @@ MARK = " CH(16)n100,%1,100,99,0 "
 CC_CMDS = ["y7,100;", "y7,0;", "y10,64;", "y1,127;", "y11,90;", "y91,40;", "y7,200;", "M(64)", "V(100)", "P(32)", "EP(90)", "REV(40)",
            "@5;", "@25;", "@128;", "@1;", "@5,1,2;", "y7,50;", "y10,0;"]
 EV_CMDS = CC_CMDS + ["Tempo(90)", "TEMPO=140;", "TimeSignature(3,4)", "TimeSignature(6,8)", "BR(12)", "PB(100)", "KeyShift(2)", "TrackKey(-1)"]
-RESTS = ["1", "2", "4", "8", "16", "32", "4.", "2..", "%1", "%7", "%100", "4^8", "1^1", "12", "6"]
+RESTS = ["1", "2", "4", "8", "16", "32", "4.", "2..", "%1", "%7", "%100", "4^8", "1^1", "12", "6", "%48^4", "%10^8.", "4^%10^8", "%5^%7^16"]
 
 
 # ---------------------------------------------------------------------------------------------------
